@@ -801,7 +801,7 @@ class Angle(object):
         2.0
         """
 
-        if b == 0.0:
+        if (b._deg if isinstance(b, Angle) else b) == 0.0:
             raise ZeroDivisionError("Division by zero is not allowed")
         if isinstance(b, (int, float)):
             return Angle(self._deg / float(b))
@@ -922,7 +922,7 @@ class Angle(object):
         11.0
         """
 
-        if b == 0.0:
+        if (b._deg if isinstance(b, Angle) else b) == 0.0:
             raise ZeroDivisionError("Division by zero is not allowed")
         if not isinstance(b, (int, float, Angle)):
             raise TypeError("Wrong operand type")
@@ -1031,7 +1031,7 @@ class Angle(object):
         4.375
         """
 
-        if self == 0.0:
+        if self._deg == 0.0:
             raise ZeroDivisionError("Division by zero is not allowed")
         if isinstance(b, (int, float)):
             return Angle(float(b) / self._deg)
